@@ -44,11 +44,11 @@ Proof.
   intros bs x r H. unfold dec_redeemers in H. change (ssfx bs r). apply bind_ok in H as [t [_ H]].
   destruct (t =? 4).
   - apply bind_ok in H as [[ln r0] [H0 H]]. apply bind_ok in H as [[xs r1] [H1 H]]. injection H as <- <-.
-    apply rd_head_suffix in H0. apply (dec_elems_suffix _ _ raw_item_suffix) in H1.
+    apply rd_head_suffix in H0. apply (dec_elems_suffix _ raw_item_suffix) in H1.
     apply (ssfx_sfx_trans _ _ _ H0 H1).
   - destruct (t =? 5); [|discriminate].
     apply bind_ok in H as [[ln r0] [H0 H]]. apply bind_ok in H as [[xs r1] [H1 H]]. injection H as <- <-.
-    apply rd_head_suffix in H0. apply (dec_elems_suffix _ _ pair_items_suffix) in H1.
+    apply rd_head_suffix in H0. apply (dec_elems_suffix _ pair_items_suffix) in H1.
     apply (ssfx_sfx_trans _ _ _ H0 H1).
 Qed.
 
@@ -57,19 +57,19 @@ Proof.
   intros bs x r H. unfold dec_field in H. change (ssfx bs r).
   destruct (k =? 0).
   { apply bind_ok in H as [[[[t d] ws] r0] [H0 H]]. injection H as <- <-.
-    apply (dec_set_suffix _ _ _ dec_vkw_suffix) in H0. exact H0. }
+    apply (dec_set_suffix _ _ dec_vkw_suffix) in H0. exact H0. }
   destruct (k =? 2).
   { apply bind_ok in H as [[[[t d] ws] r0] [H0 H]]. injection H as <- <-.
-    apply (dec_set_suffix _ _ _ dec_bw_suffix) in H0. exact H0. }
+    apply (dec_set_suffix _ _ dec_bw_suffix) in H0. exact H0. }
   destruct (k =? 1).
   { apply bind_ok in H as [[y r0] [H0 H]]. injection H as <- <-.
-    apply (dec_set_suffix _ _ _ raw_item_suffix) in H0. exact H0. }
+    apply (dec_set_suffix _ _ raw_item_suffix) in H0. exact H0. }
   destruct ((k =? 3) || (k =? 6) || (k =? 7)).
   { apply bind_ok in H as [[y r0] [H0 H]]. injection H as <- <-.
-    apply (dec_set_suffix _ _ _ rd_bytes_suffix) in H0. exact H0. }
+    apply (dec_set_suffix _ _ rd_bytes_suffix) in H0. exact H0. }
   destruct (k =? 4).
   { apply bind_ok in H as [[y r0] [H0 H]]. injection H as <- <-.
-    apply (dec_set_suffix _ _ _ (dec_pd_suffix _)) in H0. exact H0. }
+    apply (dec_set_suffix _ _ (dec_pd_suffix _)) in H0. exact H0. }
   destruct (k =? 5); [|discriminate]. apply dec_redeemers_suffix in H. exact H.
 Qed.
 
@@ -325,9 +325,9 @@ Section Model.
   Lemma step_hash_inv o tx : hash_inv tx -> hash_inv (step tx o).
   Proof.
     unfold hash_inv, FixedTx.step. intros Hi. destruct o; cbn [FixedTx.apply_op]; try exact Hi.
-    - destruct (parse_one b) as [[? ?]| | |]; cbn [bind]; [reflexivity|exact Hi..].
+    - destruct (parse_exact b) as [?| | |]; cbn [bind]; [reflexivity|exact Hi..].
     - destruct (decode_wits b) as [[? ?]| | |]; cbn [bind]; exact Hi.
-    - destruct (parse_one b) as [[? ?]| | |]; cbn [bind]; exact Hi.
+    - destruct (parse_exact b) as [?| | |]; cbn [bind]; exact Hi.
   Qed.
 
   Theorem run_ops_hash_inv ops : forall tx, hash_inv tx -> hash_inv (run_ops ops tx).
@@ -348,8 +348,8 @@ Section Model.
     unfold FixedTx.step. destruct o; cbn [touches FixedTx.apply_op]; intros Ht;
       try (apply N.eqb_neq in Ht; cbn [ft_wits with_wits]; first [apply add_vkey_other, Ht|apply add_boot_other, Ht]);
       try discriminate; try reflexivity.
-    - destruct (parse_one b) as [[? ?]| | |]; reflexivity.
-    - destruct (parse_one b) as [[? ?]| | |]; reflexivity.
+    - destruct (parse_exact b) as [?| | |]; reflexivity.
+    - destruct (parse_exact b) as [?| | |]; reflexivity.
   Qed.
 
   Theorem run_ops_untouched ops k : (forall o, In o ops -> touches o k = false) -> forall tx,
@@ -632,7 +632,7 @@ Section Main.
   Theorem fixed_new_bytes rb rw v ra tx : fixed_new H rb rw v ra = Ok tx ->
     ft_body tx = rb /\ ft_aux tx = ra /\ ft_valid tx = v /\ ft_hash tx = H rb.
   Proof.
-    unfold fixed_new. intros E. apply bind_ok in E as [[bit r0] [_ E]]. apply bind_ok in E as [[w r1] [_ E]].
+    unfold fixed_new. intros E. apply bind_ok in E as [bit [_ E]]. apply bind_ok in E as [[w r1] [_ E]].
     apply bind_ok in E as [u [_ E]]. apply mk_fixed_ok in E as [A [B [_ [C D]]]]. repeat split; assumption.
   Qed.
 End Main.
